@@ -8,6 +8,9 @@ from rules.blake import loop_trip_any
 from rules.driver import ref_id
 
 
+FLAG_LOCALS = [set()]
+
+
 def canon_tree(s, drop_ids, prev_marker, out):
     """normalised statement tree of a function body (declarations dropped)"""
     if s is None:
@@ -19,6 +22,13 @@ def canon_tree(s, drop_ids, prev_marker, out):
     elif k == 'Decl':
         return
     elif k == 'If':
+        fb = [c for c in calls(s) if c.get('name') == 'fill_block']
+        other = [x for x in walk(s) if x['k'] in ('Assign', 'CAssign', 'Return', 'For', 'While') or (x['k'] == 'Call' and x.get('name') != 'fill_block')]
+        if fb and not other:
+            # the overwrite-or-XOR decision (three calls in an if / else chain, or one call with a computed flag): its truth table is A2-XOR's business,
+            # the skeleton only records which blocks are combined
+            out.append(('fill', fb))
+            return
         a, b = [], []
         canon_tree(s['t'], drop_ids, prev_marker, a)
         canon_tree(s.get('e'), drop_ids, prev_marker, b)
@@ -34,8 +44,15 @@ def canon_tree(s, drop_ids, prev_marker, out):
     elif k == 'Return':
         out.append(('return', s.get('e')))
     else:
-        if any(x['k'] == 'Ref' and x.get('id') in drop_ids for x in walk(s)) and not any(c.get('name') == 'fill_block' for c in calls(s)):
+        fb = [c for c in calls(s) if c.get('name') == 'fill_block']
+        if fb:
+            out.append(('fill', fb))
             return
+        if any(x['k'] == 'Ref' and x.get('id') in drop_ids for x in walk(s)):
+            return
+        top = strip_all(s)
+        if top['k'] == 'Assign' and strip_all(top['l'])['k'] == 'Ref' and strip_all(top['l']).get('id') in FLAG_LOCALS[0]:
+            return        # the computed XOR flag itself
         out.append(('stmt', s))
 
 
@@ -60,6 +77,9 @@ def render(tree, ren, fb_abstract):
     for t in tree:
         if t[0] == 'stmt':
             out.append(sh(t[1]))
+        elif t[0] == 'fill':
+            with astq.renaming(ren), astq.nocasts():
+                out.append('fill_block(PREVBLOCK, %s, ?)' % ' | '.join(sorted(set(', '.join(showv(a) for a in c['a'][1:3]) for c in t[1]))))
         elif t[0] == 'if':
             out.append(['if ' + sh(t[1]), render(t[2], ren, fb_abstract), render(t[3], ren, fb_abstract)])
         elif t[0] == 'for':
@@ -87,6 +107,10 @@ def first_use_renaming(f, tree, drop_ids):
         for t in tr:
             if t[0] == 'stmt':
                 visit(t[1])
+            elif t[0] == 'fill':
+                for c in t[1]:
+                    for a in c['a'][1:3]:
+                        visit(a)
             elif t[0] == 'if':
                 visit(t[1])
                 rec(t[2])
@@ -112,6 +136,13 @@ def skeleton(F, fq):
             for d in x['d']:
                 if re.search(r'__m(128|256|512)i|__attribute__\(\(__vector_size__', d.get('ty', '')) and d.get('arrlen'):
                     drop.add(d['id'])
+    flag_ids = set()
+    for c in calls(f['body']):
+        if c.get('name') == 'fill_block' and len(c['a']) > 3:
+            r_ = strip_all(c['a'][3])
+            if r_['k'] == 'Ref' and r_.get('id'):
+                flag_ids.add(r_['id'])
+    FLAG_LOCALS[0] = flag_ids
     tree = []
     canon_tree(f['body'], drop, None, tree)
     ren = first_use_renaming(f, tree, drop)
@@ -144,33 +175,74 @@ def rule_skeleton(ctx, R, F):
             size = [val(c['a'][2]) for c in mc]
         R.check(len(mc) == 1 and size == [1024] and 'P0->memory + prev_offset' in src[0], '%s loads the previous block into its state' % name, '%s:%d' % (f['file'], f['line']), expected='memcpy(state, (instance->memory + prev_offset)->v, 1024) before the loop', found=(src, size))
     R.rule('A2-XOR', 'the overwrite-or-XOR decision: version 0x10 always overwrites; otherwise pass 0 overwrites and later passes XOR (so re-initialising a cache leaves no trace of the previous content)', min_instances=3)
+    import decoder as _dec
+    v10 = F.enumerator('ARGON2_VERSION_10')
+    if v10 is None:
+        raise AnalysisBroken('A2-XOR: ARGON2_VERSION_10 not found')
     for name in ('randomx_argon2_fill_segment_ref', 'randomx_argon2_fill_segment_ssse3', 'randomx_argon2_fill_segment_avx2'):
         f = F.func(name)
+        where = '%s:%d' % (f['file'], f['line'])
+        loops = [x for x in walk(f['body']) if x['k'] in ('For', 'While') and any(c.get('name') == 'fill_block' for c in calls(x['b']))]
+        if len(loops) != 1:
+            raise AnalysisBroken('A2-XOR: block loop of %s not found' % name)
+        ps_ = [p_ for p_ in _dec.paths(loops[0]['b']) if any(c.get('name') == 'fill_block' for e_ in p_.events if not isinstance(e_, tuple) for c in calls(e_))]
         ren = {p['id']: 'P%d' % i for i, p in enumerate(f['params'])}
-        dec = []
+        table = {}
         with astq.renaming(ren), astq.nocasts():
-            def rec(s, conds):
-                if s is None:
-                    return
-                if s['k'] == 'If':
-                    rec(s['t'], conds + [(showv(s['c']), True)])
-                    rec(s.get('e'), conds + [(showv(s['c']), False)])
-                    return
-                if s['k'] in ('Compound',):
-                    for x in s['s']:
-                        rec(x, conds)
-                    return
-                if s['k'] in ('For', 'While', 'Do'):
-                    rec(s['b'], conds)
-                    return
-                for c in calls(s):
-                    if c.get('name') == 'fill_block':
-                        rel = [(cs, t) for cs, t in conds if 'version' in cs or 'pass' in cs and 'slice' not in cs]
-                        dec.append((tuple(rel), val(c['a'][3]) if val(c['a'][3]) is not None else showv(c['a'][3])))
-            rec(f['body'], [])
-        v10 = F.macro('ARGON2_VERSION_10')
-        exp = sorted([((('(16 == P0->version)', True),), 0), ((('(16 == P0->version)', False), ('(0 == P1.pass)', True)), 0), ((('(16 == P0->version)', False), ('(0 == P1.pass)', False)), 1)])
-        R.eq('%s with_xor decision' % name, '%s:%d' % (f['file'], f['line']), [list(map(list, e[0])) + [e[1]] for e in exp], [list(map(list, d[0])) + [d[1]] for d in sorted(dec)])
+            def atomise(cnd):
+                """truth value of a condition under (is version 0x10, pass != 0); None when it tests something else"""
+                def ev(n, isv10, laterpass):
+                    m = strip_all(n)
+                    if m['k'] == 'Bin' and m['op'] in ('&&', '||'):
+                        a_, b_ = ev(m['l'], isv10, laterpass), ev(m['r'], isv10, laterpass)
+                        if m['op'] == '&&':
+                            return False if (a_ is False or b_ is False) else (None if None in (a_, b_) else True)
+                        return True if (a_ is True or b_ is True) else (None if None in (a_, b_) else False)
+                    if m['k'] == 'Un' and m.get('op') == '!':
+                        v_ = ev(m['e'], isv10, laterpass)
+                        return None if v_ is None else not v_
+                    if m['k'] == 'Bin' and m['op'] in ('==', '!='):
+                        for x_, y_ in ((m['l'], m['r']), (m['r'], m['l'])):
+                            if val(x_) is not None:
+                                sy = showv(y_)
+                                if sy.endswith('->version') and val(x_) == v10:
+                                    return isv10 == (m['op'] == '==')
+                                if sy.endswith('.pass') and val(x_) == 0:
+                                    return (not laterpass) == (m['op'] == '==')
+                        return None
+                    if val(m) is not None:
+                        return bool(val(m))
+                    sy = showv(m)
+                    if sy.endswith('.pass'):
+                        return laterpass
+                    return None
+                return ev
+            for isv10 in (True, False):
+                for later in (False, True):
+                    vals = set()
+                    for p_ in ps_:
+                        feas = True
+                        for c_, t_ in p_.conds:
+                            v_ = atomise(c_)(c_, isv10, later)
+                            if v_ is not None and v_ != t_:
+                                feas = False
+                                break
+                        if not feas:
+                            continue
+                        for e_ in p_.events:
+                            if isinstance(e_, tuple):
+                                continue
+                            for c in calls(e_):
+                                if c.get('name') == 'fill_block' and len(c['a']) > 3:
+                                    a3 = c['a'][3]
+                                    v_ = val(a3)
+                                    if v_ is None:
+                                        b_ = atomise(a3)(a3, isv10, later)
+                                        v_ = None if b_ is None else int(b_)
+                                    vals.add(v_ if v_ is not None else showv(a3))
+                    table[('1.0' if isv10 else '1.3', 'later pass' if later else 'pass 0')] = sorted(vals, key=str)
+        want = {('1.0', 'pass 0'): [0], ('1.0', 'later pass'): [0], ('1.3', 'pass 0'): [0], ('1.3', 'later pass'): [1]}
+        R.check(table == want, '%s with_xor decision' % name, where, expected={'%s, %s' % k_: v_ for k_, v_ in want.items()}, found={'%s, %s' % k_: v_ for k_, v_ in table.items()})
 
 
 def first_diff(a, b, path=''):
